@@ -2,6 +2,7 @@ import OapiVerif.Props.C04
 import OapiVerif.Model.Reject
 import OapiVerif.Gen.C06
 import OapiVerif.Proofs.IntParse
+import OapiVerif.Proofs.DateParse
 /-!
 C06 — Malformed or missing parameters never reach the user's handler.
 
@@ -143,5 +144,25 @@ example : parseInt 64 [49, 46, 53] = .error .rejected := by rfl
 example : parseInt 64 [] = .error .rejected := by rfl
 example : parseInt 64 [45] = .error .rejected := by rfl
 example : parseInt 64 [43, 48, 55] = .ok 7 := by rfl
+
+/-! ### the typed layer of `format: date` (Model/DateParse.lean: `time.Parse("2006-01-02")` / `Format`) -/
+
+/-- A date that exists (year up to 9999, month 1–12, a day of that month, leap years counted) is written as ten
+characters that are read back as the same date: never rejected. -/
+theorem C06_date_written_is_read (t : DateParse.Date) (h : t.valid = true) :
+    DateParse.parse (DateParse.format t) = some t := DateParse.parse_format t h
+
+/-- Conversely a text is accepted only if it is the one spelling of a date that exists: a month 13, a 30th of
+February, a missing leading zero, a trailing character are all refused ("bad date"). -/
+theorem C06_date_accepted_only_if_exists (s : DateParse.Str) (t : DateParse.Date) (h : DateParse.parse s = some t) :
+    t.valid = true ∧ DateParse.format t = s := DateParse.parse_some s t h
+
+def wD (s : String) : DateParse.Str := s.toList.map Char.toNat
+
+example : DateParse.parse (wD "2024-02-29") = some ⟨2024, 2, 29⟩ ∧ DateParse.parse (wD "2023-02-29") = none ∧
+    DateParse.parse (wD "1900-02-29") = none ∧ DateParse.parse (wD "2000-02-29") = some ⟨2000, 2, 29⟩ ∧
+    DateParse.parse (wD "2021-13-01") = none ∧ DateParse.parse (wD "2021-1-01") = none ∧
+    DateParse.parse (wD "2021-04-31") = none ∧ DateParse.parse (wD "2021-04-30x") = none ∧
+    DateParse.parse (wD "2021-00-10") = none := by decide
 
 end OapiVerif.Props.C06
